@@ -205,6 +205,26 @@ def nested_chain_in_sparse(rng, ds):
     return True
 
 
+def sparse_layer_in_support_ufo(rng, ds):
+    """Move the sparse layer out of the full master that hosts it into a UFO of its own whose
+    default layer holds nothing the layer's composites refer to (sparse masters kept in a
+    separate 'support' file)."""
+    sp = (ds.get("meta") or {}).get("sparse")
+    if not sp:
+        return False
+    host = ds["ufos"][sp["host"]]
+    layer = host["layers"].pop(sp["layer"])
+    support = {"glyphs": [], "kerning": [], "groups": {}, "lib": {}, "features": "",
+               "info": dict(host.get("info") or {}, styleName="Support"),
+               "layers": {sp["layer"]: layer}}
+    ds["ufos"].append(support)
+    for s_ in ds["sources"]:
+        if s_.get("layerName") == sp["layer"] and s_["ufo"] == sp["host"]:
+            s_["ufo"] = len(ds["ufos"]) - 1
+    sp["host"] = len(ds["ufos"]) - 1
+    return True
+
+
 def gen(rng, idx, tier):
     func = rng.choice(FUNCS)
     kinds = rng.choice([["line", "curve"], ["line", "curve", "qcurve"], ["curve"], ["line", "qcurve"]])
@@ -220,6 +240,7 @@ def gen(rng, idx, tier):
     stratum = "default"
     if rng.random() < 0.04 and mirror_in_one_master(rng, ds):
         stratum = "mirrored_in_one_master"
+    support = False
     opts = {}
     if "TTF" in func and rng.random() < 0.35:
         opts["flattenComponents"] = True
@@ -236,6 +257,12 @@ def gen(rng, idx, tier):
             # this is the stratum of a listed finding (tx needs a cmap)
             opts["optimizeCFF"] = 2
             stratum = "otf_masters_subroutinized"
+    if func != "compileInterpolatableTTFs" and rng.random() < 0.4:
+        if "TTF" in func and not opts.get("_nested_in_sparse") and rng.random() < 0.7:
+            # make sure the layer holds a composite whose bases are not in the layer
+            if nested_chain_in_sparse(rng, ds):
+                opts["_composite_in_sparse"] = True
+        support = sparse_layer_in_support_ufo(rng, ds)
     skip = []
     names = [g["name"] for g in ds["ufos"][0]["glyphs"]]
     if rng.random() < 0.25:
@@ -244,7 +271,7 @@ def gen(rng, idx, tier):
         skip = [rng.choice(pool)]
     filt = rng.choice([None, None, "DecomposeTransformedComponentsFilter", "PropagateAnchorsFilter"])
     return {"func": func, "ds": ds, "opts": opts, "skip": skip, "filter": filt,
-            "stratum": stratum, "lib": rng.choice(["defcon", "ufoLib2"])}
+            "stratum": stratum, "support_ufo": support, "lib": rng.choice(["defcon", "ufoLib2"])}
 
 
 def sample_view(case):
@@ -339,6 +366,8 @@ def run(case):
     bump("families_compiled")
     if case.get("stratum", "default") != "default":
         bump("mirrored_stratum_cases")
+    if case.get("support_ufo"):
+        bump("sparse_layer_in_support_ufo")
     is_tt = "glyf" in loaded[0]
     bump("ttf_runs" if is_tt else "otf_runs")
     if case["opts"].get("flattenComponents"):
